@@ -202,6 +202,11 @@ func runLive(j Job) *Result {
 				l.proposal(w)
 			}
 		case 7:
+			if (i/8)%3 == 0 {
+				l.fam = "native-stake-slashed-repeatedly"
+				w = l.nativeSlashed(j, i)
+				break
+			}
 			l.fam = "oracle"
 			w = l.oracle(j, i)
 		}
@@ -243,6 +248,9 @@ func (l *liveRun) ledger(j Job, i int, prof string) *ops.World {
 	}
 	o.Profile = prof
 	o.HostileAmt = true
+	// every third ledger history, and every history of the slash profile, stakes the chain's own token as well (registered through the gateway, added to the
+	// dogfood AVS by governance): its delegations are slashed and its undelegations paid out by the bank at maturity
+	o.NativeStaking = (i/8)%3 == 1 || prof == "slash"
 	w, err := ops.BuildLedgerWorld(j.Seed*131+17, i, o)
 	if err != nil {
 		return nil
@@ -255,6 +263,9 @@ func (l *liveRun) ledger(j Job, i int, prof string) *ops.World {
 		}
 	}
 	l.s.Case(l.fam + "|workload-completed")
+	if w.NativeStaking {
+		l.s.Case(l.fam + "|native-token-staked|workload-completed")
+	}
 	return w
 }
 
@@ -655,6 +666,75 @@ func (l *liveRun) unpricedSlash() *ops.World {
 			}
 		}
 		l.s.Case(fmt.Sprintf("%s|downtime-slash-executed=%v|workload-completed", l.fam, slashed))
+	}
+	return w
+}
+
+// nativeSlashed: the chain's own token is a staking asset of the dogfood AVS; a staker delegates it to a validator,
+// undelegates a part (the record is paid out by the bank when it matures) and the operator is slashed two or three
+// times while the record is pending, each slash computed against the operator's already reduced value; then the
+// record matures.
+func (l *liveRun) nativeSlashed(j Job, i int) *ops.World {
+	r := l.r
+	o := ops.DefaultLedgerOpts()
+	o.NOps = 2 + r.Intn(3)
+	o.ExtraOps, o.NStakers, o.Steps = 0, 2, 0
+	o.Unbond = uint32(1 + r.Intn(3))
+	o.NativeStaking = true
+	w, err := ops.BuildLedgerWorld(j.Seed*131+19, i, o)
+	if err != nil {
+		return nil
+	}
+	w.KeepSnaps = false
+	w.RunLedger(o)
+	if w.Dead || !w.NativeStaking {
+		l.s.Case(l.fam + "|native-token-not-staked")
+		return w
+	}
+	victim := w.Opers[1+r.Intn(len(w.Opers)-1)]
+	acct := sim.NewAccount("native-staker-" + l.hist)
+	w.Fund(acct)
+	s := w.AddNativeStaker(acct)
+	unit := sdkmath.NewIntWithDecimal(1, 18)
+	amt := unit.MulRaw(int64(20 + r.Intn(400)))
+	if st := w.Delegate(s, w.Native, victim, amt); !st.Ack {
+		l.s.Case(l.fam + "|delegation-refused")
+		return w
+	}
+	for k := 0; k < 4 && !w.Dead; k++ { // the delegation carries voting power after the next epoch end
+		w.Advance(w.Dt)
+	}
+	if w.Dead {
+		return w
+	}
+	w.Undelegate(s, w.Native, victim, amt.QuoRaw(int64(1+r.Intn(3))))
+	w.Advance(w.Dt)
+	nSlash := 2 + r.Intn(2)
+	executed := 0
+	for k := 0; k < nSlash && !w.Dead; k++ {
+		power := int64(1)
+		if vals, err := w.C.App.OperatorKeeper.GetOperatorOptedUSDValue(w.C.Ctx(), w.AVSAddr, victim.Addr()); err == nil {
+			if t := vals.ActiveUSDValue.TruncateInt(); t.IsInt64() && t.Int64() > 0 {
+				power = t.Int64()
+			}
+		}
+		if k > 0 && r.Intn(2) == 0 {
+			power = power * int64(2+r.Intn(2)) // the power the operator had before the earlier slashes
+		}
+		st := w.SlashStep(&operatortypes.SlashInputInfo{IsDogFood: true, Power: power, SlashType: 1, Operator: victim.Acct.Acc, AVSAddr: w.AVSAddr,
+			SlashID: fmt.Sprintf("0x%x_0x%x", 1+k%2, 7000+k), SlashEventHeight: w.C.Height() - 1 - int64(r.Intn(2)), SlashProportion: sdkmath.LegacyNewDecWithPrec(int64(250+r.Intn(500)), 3)})
+		if st.Ack {
+			executed++
+		}
+		if r.Intn(2) == 0 {
+			w.Advance(w.Dt)
+		}
+	}
+	for k := 0; k < 3*int(o.Unbond+2) && !w.Dead; k++ { // the record matures
+		w.Advance(w.Dt)
+	}
+	if !w.Dead {
+		l.s.Case(fmt.Sprintf("%s|slashes-executed=%d|pending-records-left=%d|workload-completed", l.fam, executed, len(w.Last.Ledger.Undel)))
 	}
 	return w
 }
